@@ -90,6 +90,7 @@ def run(ctx):
     ctx.do(rule_mask_arithmetic)
     ctx.do(rule_absorption_same_connective)
     ctx.do(rule_repeats_does_not_distribute)
+    ctx.do(rule_followedby_containment_consumes)
     ctx.do(rule_changed_flag)
     ctx.do(rule_flag_returned)
     ctx.do(rule_lexicographic_chains)
@@ -1071,3 +1072,50 @@ def rule_repeats_does_not_distribute(ctx, R="C09.pipeline"):
     if n < 1:
         raise AnalysisError("no construction of a qualified expression found in the equivalence transformers: anchors lost")
     run.ok(R, key("stix2/equivalence/pattern", "<transformers>", "qualifier-constructions-examined"))
+
+
+def rule_followedby_containment_consumes(ctx, R="C09.distinct-bindings"):
+    """A FOLLOWEDBY chain is contained in another when its operands are found there IN ORDER, each at a position of its own:
+    a repeated operand ([a] FOLLOWEDBY [a]) needs two occurrences.  In the containment test every comparison of a containee
+    operand with a container element is made on a FRESH container element: on the flow graph, no cycle leads from the
+    comparison back to itself without passing a next() on the container's iterator -- otherwise a match does not consume its
+    element, the next operand is compared with the same one again, and ([a] FB [a]) OR ([a] FB [b]) is absorbed into one."""
+    run = ctx.run
+    prog = ctx.prog
+    cls = prog.cls("stix2.equivalence.pattern.transform.observation::AbsorptionTransformer")
+    fi = next((m for nme, m in cls.methods.items() if nme.endswith("is_contained_followedby")), None)
+    if fi is None:
+        raise AnalysisError("anchor missing: AbsorptionTransformer.__is_contained_followedby")
+    g = cfg_of(fi)
+    container = fi.params[-1]
+    iters = {norm(a.targets[0]) for a in body_walk(fi.node) if isinstance(a, ast.Assign) and isinstance(a.value, ast.Call)
+             and call_simple_name(a.value) == "iter" and a.value.args and norm(a.value.args[0]) == container}
+    if not iters:
+        raise AnalysisError("__is_contained_followedby: the container is not walked through an iterator any more (rule out of date)")
+
+    def has_call(n, pred):
+        if n.ast is None:
+            return False
+        root = n.ast.test if n.kind == "test" and hasattr(n.ast, "test") else n.ast
+        if isinstance(root, (ast.For, ast.While, ast.If)) and n.kind != "test":
+            return False
+        return any(isinstance(c, ast.Call) and pred(c) for c in ast.walk(root))
+    cmps = [n for n in g.nodes if has_call(n, lambda c: call_simple_name(c) == "observation_expression_cmp")]
+    advances = {n for n in g.nodes if has_call(n, lambda c: call_simple_name(c) == "next" and c.args and norm(c.args[0]) in iters)}
+    if not cmps or not advances:
+        raise AnalysisError("__is_contained_followedby: comparison (%d) / iterator advance (%d) not found" % (len(cmps), len(advances)))
+    bad = None
+    for n in cmps:
+        if n in advances:
+            continue
+        for s_, lab in n.succ:
+            if lab in ("exc", "raise") or s_ in advances:
+                continue
+            if s_ is n or g.path_avoiding(s_, n, lambda x: x in advances, labels_skip=("exc", "raise")) is not None:
+                bad = n
+    run.check(bad is None, R, key(fi.module.relpath, fi.qualname, "a-match-consumes-its-container-element"),
+              "a containee operand can be compared with a container element that an earlier operand already matched (a cycle "
+              "through the comparison without advancing the container's iterator): a repeated operand is found twice at one "
+              "position, and an expression is absorbed by one that does not contain it", file=fi.module.relpath,
+              line=bad.ast.lineno if bad is not None else fi.node.lineno, function=fi.qualname,
+              expected="next(<container iterator>) between any two comparisons", found="a cycle without it")
